@@ -267,6 +267,9 @@ func c14(ctx *Ctx) (*Outcome, error) {
 	for i := 0; i < ctx.N(16, 32); i++ {
 		cases = append(cases, identifierCollisionCase(i))
 	}
+	for i := 0; i < ctx.N(24, 48); i++ {
+		cases = append(cases, suffixLookalikeCase(i))
+	}
 	// pinned witness of the recorded finding name-breaks-tag
 	for _, hn := range hazard {
 		root := &sg.Schema{Types: []string{"object"}, Props: []sg.Prop{{Name: hn, S: &sg.Schema{Types: []string{"string"}}}, {Name: "plain", S: &sg.Schema{Types: []string{"integer"}}}}}
